@@ -5,7 +5,6 @@ import (
 	"bufio"
 	"bytes"
 	"context"
-	"crypto"
 	"crypto/sha256"
 	"encoding/base64"
 	"encoding/hex"
@@ -21,12 +20,16 @@ import (
 	"testing"
 	"time"
 
+	ssi "github.com/nuts-foundation/go-did"
+	"github.com/nuts-foundation/go-did/did"
 	"github.com/nuts-foundation/go-stoabs"
 	"github.com/nuts-foundation/go-stoabs/bbolt"
 	"github.com/nuts-foundation/nuts-node/core"
 	"github.com/nuts-foundation/nuts-node/crypto/hash"
+	"github.com/nuts-foundation/nuts-node/jsonld"
 	"github.com/nuts-foundation/nuts-node/network/dag"
 	"github.com/nuts-foundation/nuts-node/network/dag/tree"
+	"github.com/nuts-foundation/nuts-node/vdr/resolver"
 	"github.com/sirupsen/logrus"
 
 	"verifharness/gate"
@@ -168,7 +171,7 @@ func buildWorld(t *testing.T, in input) *world {
 		if err != nil {
 			t.Fatal(err)
 		}
-		st, err := dag.NewState(db, dag.NewPrevTransactionsVerifier(), dag.NewTransactionSignatureVerifier(stubResolver{}))
+		st, err := dag.NewState(db, dag.NewPrevTransactionsVerifier(), dag.NewTransactionSignatureVerifier(keyResolver()))
 		if err != nil {
 			t.Fatal(err)
 		}
@@ -336,6 +339,16 @@ func (w *world) build(n string, a attr, top dag.Transaction) {
 		delete(h, "jwk")
 		h["kid"] = "did:nuts:known#k1" // resolver returns knownKey, signed by other
 		raw = txforge.Compact(h, phHex, other)
+	case "kid-later-key":
+		// the key is in the CURRENT version of the signer's document only, not in the version the prevs point at
+		delete(h, "jwk")
+		h["kid"] = "did:nuts:known#k2"
+		raw = txforge.Compact(h, phHex, laterKey)
+	case "kid-late-doc":
+		// none of the prevs is a source transaction of the signer's document (it was created later)
+		delete(h, "jwk")
+		h["kid"] = "did:nuts:late#k3"
+		raw = txforge.Compact(h, phHex, lateDocKey)
 	// ---- valid variants
 	case "kid-ok":
 		delete(h, "jwk")
@@ -440,6 +453,8 @@ type run struct {
 	mu       sync.Mutex
 	ledger   map[string][]string // sub -> delivered tx names (in order)
 	finished map[string]bool     // sub/tx completion reported ok by the receiver and recorded
+	okAnswered map[string]bool   // sub/tx: the receiver answered "ok" (completion) at least once
+	readFail   map[string]int    // sub/tx -> number of job-shelf reads of that job that still have to fail (NotifyReadFail steps)
 	respQ    map[string][]string // sub/tx -> scripted responses (consumed per call)
 	addErr   map[string]error
 	stepNo   int
@@ -461,16 +476,47 @@ var knownKey = txforge.NewKey()
 
 func base64url(b []byte) string { return base64.RawURLEncoding.EncodeToString(b) }
 
-// stubResolver resolves did:nuts:known#k1 to knownKey and nothing else (the resolution history itself is
-// the business of the VDR, see DidStore.tla).
-type stubResolver struct{}
+// Key resolution runs through the REAL dag.SourceTXKeyResolver (network/dag/keys.go); only the DID store behind it is scripted
+// (the resolution history itself is the business of the VDR, see DidStore.tla):
+//   did:nuts:known  every transaction is a source transaction of a version holding key k1; the CURRENT version also holds k2
+//                   (a key added later: a transaction may only be signed with a key of the version its prevs point at)
+//   did:nuts:late   no version belongs to any source transaction (the document was created later); the current version holds k3
+var laterKey, lateDocKey = txforge.NewKey(), txforge.NewKey()
 
-func (stubResolver) ResolvePublicKey(kid string, _ []hash.SHA256Hash) (crypto.PublicKey, error) {
-	if kid == "did:nuts:known#k1" {
-		return &knownKey.Priv.PublicKey, nil
+type scriptedDocs struct{}
+
+func docWith(id string, keys map[string]txforge.Key) *did.Document {
+	d := did.MustParseDID(id)
+	doc := &did.Document{ID: d}
+	for frag, k := range keys {
+		kid := did.DIDURL{DID: d, Fragment: frag}
+		vm, err := did.NewVerificationMethod(kid, ssi.JsonWebKey2020, d, &k.Priv.PublicKey)
+		if err != nil {
+			panic(err)
+		}
+		doc.VerificationMethod.Add(vm)
 	}
-	return nil, errors.New("key not found")
+	return doc
 }
+
+func (scriptedDocs) Resolve(id did.DID, md *resolver.ResolveMetadata) (*did.Document, *resolver.DocumentMetadata, error) {
+	atSource := md != nil && md.SourceTransaction != nil
+	switch id.String() {
+	case "did:nuts:known":
+		if atSource {
+			return docWith("did:nuts:known", map[string]txforge.Key{"k1": knownKey}), &resolver.DocumentMetadata{}, nil
+		}
+		return docWith("did:nuts:known", map[string]txforge.Key{"k1": knownKey, "k2": laterKey}), &resolver.DocumentMetadata{}, nil
+	case "did:nuts:late":
+		if atSource {
+			return nil, nil, resolver.ErrNotFound
+		}
+		return docWith("did:nuts:late", map[string]txforge.Key{"k3": lateDocKey}), &resolver.DocumentMetadata{}, nil
+	}
+	return nil, nil, resolver.ErrNotFound
+}
+
+func keyResolver() dag.SourceTXKeyResolver { return dag.SourceTXKeyResolver{Resolver: scriptedDocs{}} }
 
 func (w *world) open(r *run) error {
 	db, err := bbolt.CreateBBoltStore(r.path, stoabs.WithNoSync())
@@ -491,6 +537,22 @@ func (w *world) open(r *run) error {
 		r.res.Trace = append(r.res.Trace, e)
 		r.mu.Unlock()
 	}
+	g.ShelfGetFault = func(shelf string, key []byte) string {
+		// NotifyReadFail(s, t): the next read of the job of transaction t on the shelf of subscriber s fails
+		if !strings.HasPrefix(shelf, "_") || !strings.HasSuffix(shelf, "_jobs") || len(key) != hash.SHA256HashSize {
+			return "go"
+		}
+		sub := strings.TrimSuffix(strings.TrimPrefix(shelf, "_"), "_jobs")
+		r.mu.Lock()
+		defer r.mu.Unlock()
+		k := sub + "/" + r.name(hash.FromSlice(key))
+		if r.readFail[k] > 0 {
+			r.readFail[k]--
+			r.res.Trace = append(r.res.Trace, map[string]any{"ev": "jobreadfail", "s": sub, "t": r.name(hash.FromSlice(key))})
+			return "fail"
+		}
+		return "go"
+	}
 	g.InTx = func(tx stoabs.WriteTx, f map[string]any) {
 		// projected state: names of the universe transactions in the write set of this transaction
 		names := []string{}
@@ -502,7 +564,7 @@ func (w *world) open(r *run) error {
 		sort.Strings(names)
 		f["stored"] = names
 	}
-	st, err := dag.NewState(g, dag.NewPrevTransactionsVerifier(), dag.NewTransactionSignatureVerifier(stubResolver{}))
+	st, err := dag.NewState(g, dag.NewPrevTransactionsVerifier(), dag.NewTransactionSignatureVerifier(keyResolver()))
 	if err != nil {
 		return err
 	}
@@ -588,9 +650,15 @@ func (r *run) receive(gen int, sub string, ev dag.Event) (bool, error) {
 	r.mu.Unlock()
 	switch resp {
 	case "ok":
+		r.mu.Lock()
+		r.okAnswered[key] = true
+		r.mu.Unlock()
 		return true, nil
 	case "fail":
 		return false, errors.New("scripted failure")
+	case "failctx":
+		// the error text Run() recognises at start-up: such a job is not retried after a restart, but it stays on the shelf
+		return false, fmt.Errorf("scripted failure: %w", jsonld.ContextURLNotAllowedErr)
 	case "incomplete":
 		return false, nil
 	case "fatal":
@@ -922,7 +990,7 @@ func (r *run) quiescent(actors map[string]bool) bool {
 func (w0 *world) runScript(t *testing.T, sc script) *result {
 	w := w0.variant(sc.Defects)
 	res := &result{ID: sc.ID, Violations: []violation{}, Drift: []string{}, Trace: []map[string]any{}}
-	r := &run{w: w, res: res, actors: map[string]bool{}, corrupt: map[uint32]bool{}, fatalGen: map[string]int{}, wpOK: map[string]bool{}, inflight: map[string]int{}, dupWP: map[string]bool{}, offered: map[string]map[string]bool{}, ledger: map[string][]string{}, finished: map[string]bool{}, respQ: map[string][]string{}, addErr: map[string]error{}}
+	r := &run{w: w, res: res, actors: map[string]bool{}, corrupt: map[uint32]bool{}, fatalGen: map[string]int{}, wpOK: map[string]bool{}, inflight: map[string]int{}, dupWP: map[string]bool{}, offered: map[string]map[string]bool{}, ledger: map[string][]string{}, finished: map[string]bool{}, okAnswered: map[string]bool{}, readFail: map[string]int{}, respQ: map[string][]string{}, addErr: map[string]error{}}
 	r.path = filepath.Join(w.dir, "run-"+sc.ID+".db")
 	defer os.Remove(r.path)
 	if err := copyFile(w.template, r.path); err != nil {
@@ -949,6 +1017,11 @@ func (w0 *world) runScript(t *testing.T, sc script) *result {
 				}
 			}
 			r.respQ[k] = append(r.respQ[k], resp)
+		}
+	}
+	for _, s := range sc.Steps {
+		if s.str("a") == "NotifyReadFail" {
+			r.readFail[s.str("s")+"/"+s.str("t")]++
 		}
 	}
 	if d, ok := sc.Default[""]; ok {
@@ -1133,8 +1206,8 @@ func (w0 *world) runScript(t *testing.T, sc script) *result {
 				expectedCalls[s.str("s")+"/"+s.str("t")]++
 			}
 			return true, nil // the first notifyNow runs inside AfterCommit; retries run on their own goroutines
-		case "NotifyMark":
-			return true, nil
+		case "NotifyMark", "NotifyReadFail":
+			return true, nil // NotifyReadFail is realised by the fault plan installed at the start of the script
 		case "WritePayload":
 			c := w.txs[s.str("t")]
 			// the model writes the payload of a STORED transaction; when the Add that stores it is still blocked inside the
@@ -1494,7 +1567,7 @@ func (r *run) finish(actors map[string]bool) *result {
 	}
 	// restart from disk: a fresh State over the same store must report the same
 	if props["C08"] {
-		st2, err := dag.NewState(r.inc.inner, dag.NewPrevTransactionsVerifier(), dag.NewTransactionSignatureVerifier(stubResolver{}))
+		st2, err := dag.NewState(r.inc.inner, dag.NewPrevTransactionsVerifier(), dag.NewTransactionSignatureVerifier(keyResolver()))
 		if err == nil {
 			_ = st2.Configure(core.ServerConfig{})
 			r.checkDerived(st2, r.inc.inner, "after reload from disk", nil)
@@ -1645,6 +1718,14 @@ func (r *run) checkDelivery() {
 			r.mu.Unlock()
 			_ = fin
 			if !queued {
+				// the job is gone: only a completion reported by the subscriber may remove it ("an undelivered event stays
+				// visible as failed rather than vanishing")
+				r.mu.Lock()
+				okd := r.okAnswered[sub.Name+"/"+n]
+				r.mu.Unlock()
+				if !okd {
+					r.violL("C14", "vanished-without-completion", fmt.Sprintf("the job %s/%s is gone although the subscriber never reported completion (%d deliveries, all failed)", sub.Name, n, delivered[n]))
+				}
 				continue // completion recorded
 			}
 			// still queued: must be visible with a retry count that reflects the attempts
